@@ -238,6 +238,33 @@ def method_skeleton(func):
     return phases, targets_ok, payloads, ordered_ok
 
 
+def has_attr_answer_is_all(func):
+    """round 5: SubprocVecEnv.has_attr is stateless and returns the conjunction of what the workers answer NOW: its body is exactly
+    target list ; send loop ; `return all([<remote>.recv() for <remote> in target_remotes])` (no remembered answers, no early exit)"""
+    body = [s for s in func.body if not _is_doc(s)]
+    if len(body) != 3 or ast.unparse(body[0]) not in TARGET_STMTS or not isinstance(body[1], ast.For) or not isinstance(body[2], ast.Return):
+        return False
+    v = body[2].value
+    if not (isinstance(v, ast.Call) and isinstance(v.func, ast.Name) and v.func.id == "all" and len(v.args) == 1 and not v.keywords):
+        return False
+    lc = v.args[0]
+    if not (isinstance(lc, (ast.ListComp, ast.GeneratorExp)) and len(lc.generators) == 1 and not lc.generators[0].ifs):
+        return False
+    g = lc.generators[0]
+    return ast.unparse(g.iter) == "target_remotes" and isinstance(g.target, ast.Name) and isinstance(lc.elt, ast.Call) and _is_recv_on(lc.elt, g.target.id)
+
+
+HAS_ATTR_BRANCH = "try:\n    env.get_wrapper_attr(data)\n    remote.send(True)\nexcept AttributeError:\n    remote.send(False)"
+
+
+def worker_has_attr_ok(func):
+    """round 5: the worker's has_attr branch looks the attribute up in the environment at the time the command is handled"""
+    for n in ast.walk(func):
+        if isinstance(n, ast.If) and ast.unparse(n.test) in ("cmd == 'has_attr'", 'cmd == "has_attr"'):
+            return len(n.body) == 1 and ast.unparse(n.body[0]) == HAS_ATTR_BRANCH
+    return False
+
+
 def _find(tree, qual):
     node = tree
     for p in qual.split("."):
@@ -370,6 +397,14 @@ def render() -> tuple[str, list]:
     out.append(f"Definition worker_step_reply_ok : bool := {str(bool(shapes.get('step'))).lower()}.")
     out.append(f"Definition worker_reset_reply_ok : bool := {str(bool(shapes.get('reset'))).lower()}.")
     out.append("Definition worker_replies : list (cmdkind * nat) := [" + "; ".join(f"({k}, {max(n, 0) if n >= 0 else 99})" for k, n in replies) + "].")
+    try:
+        ok3 = has_attr_answer_is_all(_find(tree, "SubprocVecEnv.has_attr"))
+        ok4 = worker_has_attr_ok(_find(tree, "_worker"))
+    except SkeletonError:
+        ok3 = ok4 = False
+    out.append(f"(* {SRC} :: SubprocVecEnv.has_attr / _worker has_attr branch (round 5) *)")
+    out.append(f"Definition skel_has_attr_answer_is_all : bool := {str(bool(ok3)).lower()}.")
+    out.append(f"Definition worker_has_attr_reply_ok : bool := {str(bool(ok4)).lower()}.")
     return "\n".join(out) + "\n", bad
 
 
